@@ -5,7 +5,7 @@
   The known crash class of the harness is `reflexive ∧ has_none` (`CrashClassU`).  The model raises on a strictly
   smaller class, `SimplifyRisk`: some self-intervened variable `Y_y` occurs together with a VALUELESS variable of the
   same name `Y` (possibly `Y_y` itself).  Outside it — on a well-formed graph, for event variables that are nodes, are
-  not starred plain variables and carry at most one subscript on their own name — SIMPLIFY returns.
+  not starred plain variables and whose subscript lists are duplicate free (a `frozenset`) — SIMPLIFY returns.
 -/
 import Y0.Model.CtfTr
 import Y0.Props.C19
@@ -371,11 +371,37 @@ theorem splitReflexive_snd (me : Event) (p : Var × Val) (hp : p ∈ (splitRefle
   simp only [List.mem_filter, Bool.and_eq_true] at hp
   exact ⟨hp.1, hp.2.1⟩
 
+/-- a passed consistency check: the value set of a counterfactual key of the reflexive part is `{i}` for EVERY
+subscript `i` of the key -/
+theorem anyInconsistent_false_cf (n r : VMap) (h : anyInconsistent n r = .ok false) :
+    ∀ p ∈ r, p.1.isCf = true → ∀ i ∈ p.1.ivs, valSetEq [some i] p.2 = true := by
+  unfold anyInconsistent at h
+  split at h
+  · cases h
+  · split at h
+    · cases h
+    · split at h
+      · cases h
+      · simp only [Except.ok.injEq, List.any_eq_false, Bool.or_eq_true, Bool.and_eq_true, Bool.not_eq_eq_eq_not,
+          Bool.not_true, decide_eq_true_eq, not_or, not_and, List.any_eq_true, not_exists] at h
+        intro p hp hcf i hi
+        have := (h p hp).2 hcf i hi
+        simpa using this
+
+theorem length_le_one_of_all_eq {α : Type} : ∀ (l : List α), l.Nodup → (∀ a ∈ l, ∀ b ∈ l, a = b) → l.length ≤ 1
+  | [], _, _ => by simp
+  | [_], _, _ => by simp
+  | a :: b :: _, hn, h => by
+    have hab : a = b := h a (by simp) b (by simp)
+    rw [List.nodup_cons] at hn
+    exact absurd (by simp [hab]) hn.1
+
 /-- **SIMPLIFY proper never raises** on a (minimised) event in which no self-intervened variable shares its name with
-a valueless variable and every self-intervened variable has exactly its own subscript. -/
+a valueless variable and the subscripts of every self-intervened variable are a duplicate-free list of subscripts on
+its own name. -/
 theorem simplifyCore_total (me : Event)
     (hB : ∀ p ∈ me, selfIntervened p.1 = true → ∀ q ∈ me, q.2 = none → q.1.name ≠ p.1.name)
-    (hC : ∀ p ∈ me, selfIntervened p.1 = true → p.1.ivs.length = 1 ∧ checkNonreflexive p.1 = false) :
+    (hC : ∀ p ∈ me, selfIntervened p.1 = true → p.1.ivs.Nodup ∧ checkNonreflexive p.1 = false) :
     ∃ r, simplifyCore me = .ok r := by
   -- facts about the two dictionaries
   have hRhas : ∀ k x, (removeRepeated (splitReflexive me).1).Has k x →
@@ -398,14 +424,38 @@ theorem simplifyCore_total (me : Event)
   -- first check
   obtain ⟨b1, h1⟩ := anyInconsistent_ok (removeRepeated (splitReflexive me).2) (removeRepeated (splitReflexive me).1)
     hNclean (fun p hp _ => (removeRepeated_clean _ p hp).2) hRcf
-  -- the reduction
+  -- an inconsistent event is answered at once
+  by_cases hb1 : b1 = true
+  · subst hb1
+    unfold simplifyCore
+    simp only [bind, Except.bind, h1, ↓reduceIte]
+    exact ⟨_, rfl⟩
+  have hb1' : b1 = false := by simpa using hb1
+  subst hb1'
+  -- the reduction: a consistent self-intervened variable has exactly one subscript
   have hred : reduceReflexive (removeRepeated (splitReflexive me).1) =
       .ok (reduceKeyed (removeRepeated (splitReflexive me).1) []) := by
     apply reduceReflexive_ok
     intro p hp hcf
     obtain ⟨x, hx, hhas⟩ := hRentry p hp
     obtain ⟨hmem, hs⟩ := hRhas p.1 x hhas
-    exact hC (p.1, x) hmem (hs hcf)
+    obtain ⟨hnd, hchk⟩ := hC (p.1, x) hmem (hs hcf)
+    refine ⟨?_, hchk⟩
+    have hvals := anyInconsistent_false_cf _ _ h1 p hp hcf
+    have hle : p.1.ivs.length ≤ 1 := by
+      apply length_le_one_of_all_eq _ hnd
+      intro i hi j hj
+      have h1' := hvals i hi
+      have h2' := hvals j hj
+      simp only [valSetEq, seteq', subset', Bool.and_eq_true, List.all_eq_true, decide_eq_true_eq, List.mem_cons,
+        List.not_mem_nil, or_false, forall_eq] at h1' h2'
+      have := h2'.2 _ h1'.1
+      simpa using this
+    have hpos : p.1.ivs ≠ [] := by
+      intro h0
+      simp [Var.isCf, h0] at hcf
+    have := List.length_pos_iff.2 hpos
+    omega
   have hR'nd : (reduceKeyed (removeRepeated (splitReflexive me).1) []).NodupVals :=
     reduceKeyed_nodup _ _ (by intro p hp; cases hp)
   have hR'ne : NonemptyVals (reduceKeyed (removeRepeated (splitReflexive me).1) []) :=
@@ -455,16 +505,12 @@ theorem simplifyCore_total (me : Event)
   obtain ⟨a, ha⟩ := popAll_total _ hNne
   obtain ⟨b, hb⟩ := popAll_total _ hR'ne
   unfold simplifyCore
-  simp only [bind, Except.bind, h1, hred]
-  cases b1 with
+  simp only [bind, Except.bind, h1, hred, Bool.false_eq_true, ↓reduceIte, h2]
+  cases b2 with
   | true => exact ⟨_, rfl⟩
   | false =>
-    simp only [Bool.false_eq_true, ↓reduceIte, h2]
-    cases b2 with
-    | true => exact ⟨_, rfl⟩
-    | false =>
-      simp only [Bool.false_eq_true, ↓reduceIte, ha, hb]
-      exact ⟨_, rfl⟩
+    simp only [Bool.false_eq_true, ↓reduceIte, ha, hb]
+    exact ⟨_, rfl⟩
 
 /-! ### minimisation of a self-intervened variable -/
 
@@ -510,13 +556,13 @@ theorem minimize_self (g : MG Name) (v k : Var) (hm : minimize g v = .ok k) (hs 
 /-! ### SIMPLIFY -/
 
 /-- **SIMPLIFY raises only on the crash class.**  On a graph built by `from_edges`, for an event whose variables are
-nodes of the graph, are valid event variables (a plain `Variable` carries no star) and have at most one subscript on
-their own name: outside `SimplifyRisk` (a self-intervened `Y_y` together with a valueless variable named `Y`)
+nodes of the graph, are valid event variables (a plain `Variable` carries no star) and whose subscripts are
+duplicate-free lists (they model a `frozenset`): outside `SimplifyRisk` (a self-intervened `Y_y` together with a valueless variable named `Y`)
 `simplify` returns an event or `None`. -/
-theorem simplify_no_error_outside_risk (g : MG Name) (hg : g.WF) (e : Event)
+theorem simplify_total_of_risk (g : MG Name) (hg : g.WF) (e : Event)
     (hnodes : ∀ p ∈ e, p.1.name ∈ g.nodes)
     (hvalid : ∀ p ∈ e, validEventVar p.1 = true)
-    (hone : ∀ p ∈ e, (p.1.ivs.filter (fun i => i.name == p.1.name)).length ≤ 1)
+    (hnd : ∀ p ∈ e, p.1.ivs.Nodup)
     (hrisk : SimplifyRisk e = false) : ∃ r, simplify g e = .ok r := by
   unfold simplify
   have hv : (!e.all fun p => validEventVar p.1) = false := by
@@ -546,15 +592,9 @@ theorem simplify_no_error_outside_risk (g : MG Name) (hg : g.WF) (e : Event)
     simp only at hs ⊢
     obtain ⟨v, hv, hmv⟩ := (hmem k x).1 hp
     obtain ⟨_, hkn, hkivs⟩ := minimize_self g v k hmv hs
-    have hle := hone (v, x) hv
-    simp only at hle
     constructor
-    · have hpos : k.ivs ≠ [] := by
-        intro h0
-        simp [selfIntervened, h0] at hs
-      rw [hkivs] at hpos ⊢
-      have := List.length_pos_iff.2 hpos
-      omega
+    · rw [hkivs]
+      exact (hnd (v, x) hv).filter _
     · simp only [checkNonreflexive, List.any_eq_false, bne_iff_ne, ne_eq, not_not]
       intro i hi
       rw [hkivs] at hi
@@ -563,12 +603,12 @@ theorem simplify_no_error_outside_risk (g : MG Name) (hg : g.WF) (e : Event)
       simpa using this
 
 /-- the same with the harness's coarser class `reflexive ∧ has_none` -/
-theorem simplify_no_error_outside_class (g : MG Name) (hg : g.WF) (e : Event)
+theorem simplify_total_of_class (g : MG Name) (hg : g.WF) (e : Event)
     (hnodes : ∀ p ∈ e, p.1.name ∈ g.nodes)
     (hvalid : ∀ p ∈ e, validEventVar p.1 = true)
-    (hone : ∀ p ∈ e, (p.1.ivs.filter (fun i => i.name == p.1.name)).length ≤ 1)
+    (hnd : ∀ p ∈ e, p.1.ivs.Nodup)
     (hcls : CrashClassU e = false) : ∃ r, simplify g e = .ok r :=
-  simplify_no_error_outside_risk g hg e hnodes hvalid hone (simplifyRisk_false_of_crashClass e hcls)
+  simplify_total_of_risk g hg e hnodes hvalid hnd (simplifyRisk_false_of_crashClass e hcls)
 
 /-! ### what SIMPLIFY returns -/
 
